@@ -210,25 +210,27 @@ theorem x12Encode_gen (list : List Sym) (body : List Nat) (p0 : Nat) (c0 : List 
 /-! ### the invariant of the main loop -/
 
 /-- like `Sync`, for the end game: at most one more codeword follows -/
-def SyncEnd (body cw : List Nat) (pos : Nat) : Prop :=
+def SyncEnd (pre out0 body cw : List Nat) (pos : Nat) : Prop :=
+  pre.length ≤ cw.length ∧ cw.take pre.length = pre ∧
   ∀ tail, tail.length ≤ 1 → NiceTail tail →
-    decRun .ascii { rest := cw ++ tail, eaten := 0, out := [], ecis := [] } =
-    decRun .ascii { rest := tail, eaten := cw.length, out := body.take pos, ecis := [] }
+    decRun .ascii { rest := cw.drop pre.length ++ tail, eaten := pre.length, out := out0, ecis := [] } =
+    decRun .ascii { rest := tail, eaten := cw.length, out := out0 ++ body.take pos, ecis := [] }
 
 def ExactFit (list : List Sym) (n : Nat) : Prop := ∃ S, firstBigEnough list n = some S ∧ dataCw S = n
 
 /-- the three situations the encoder can be in between two calls of a mode encoder -/
-inductive Phase (list : List Sym) (body : List Nat) (s : St) : Prop where
+inductive Phase (pre out0 : List Nat) (list : List Sym) (body : List Nat) (s : St) : Prop where
   /-- decoder and encoder in step, in ASCII mode or with a latch pending -/
-  | normal (sync : Sync body s.cw s.pos) (pend : Pending s) (plan : PlanOK s.plan)
+  | normal (sync : Sync pre out0 body s.cw s.pos) (pend : Pending s) (plan : PlanOK s.plan)
       (more : s.newMode ≠ none → s.hasMore = true)
   /-- a run ended without UNLATCH: exactly one ASCII codeword is still to come and fills the symbol -/
-  | endgame (more : s.hasMore = true) (sync : SyncEnd body s.cw s.pos) (mode : s.mode = .ascii)
+  | endgame (more : s.hasMore = true) (sync : SyncEnd pre out0 body s.cw s.pos) (mode : s.mode = .ascii)
       (plan : s.plan = [(0, .ascii)]) (nm : s.newMode = none) (one : asciiSize (body.drop s.pos) ≤ 1)
       (fit : ExactFit list (s.cw.length + asciiSize (body.drop s.pos)))
   /-- everything is written and fills the symbol exactly -/
-  | done (nomore : s.hasMore = false) (dec : ∃ e, decRun .ascii { rest := s.cw, eaten := 0, out := [], ecis := [] } =
-        .ok { rest := [], eaten := e, out := body, ecis := [] }) (fit : ExactFit list s.cw.length)
+  | done (nomore : s.hasMore = false) (pfx : s.cw.take pre.length = pre)
+      (dec : ∃ e, decRun .ascii { rest := s.cw.drop pre.length, eaten := pre.length, out := out0, ecis := [] } =
+        .ok { rest := [], eaten := e, out := out0 ++ body, ecis := [] }) (fit : ExactFit list s.cw.length)
 
 /-- the first codeword is not one of those `decode_parts` looks at before the main loop -/
 def HeadOK (cw : List Nat) : Prop := ∀ c ∈ cw.head?, c ≠ 232 ∧ c ≠ 236 ∧ c ≠ 237
@@ -251,31 +253,36 @@ theorem headOK_asciiSeg {X chunk : List Nat} (h : AsciiSeg X chunk) : HeadOK X :
     have := h.1 x (by simp)
     exact ⟨this.2.2.1, this.2.2.2.1, this.2.2.2.2⟩
 
-structure MI (list : List Sym) (body : List Nat) (s : St) : Prop where
+structure MI (pre out0 : List Nat) (list : List Sym) (body : List Nat) (s : St) : Prop where
   inp : s.input = body
   lst : s.list = list
   le : s.pos ≤ body.length
-  hd : HeadOK s.cw
-  phase : Phase list body s
+  hd : HeadOK (s.cw.drop pre.length)
+  phase : Phase pre out0 list body s
 
 theorem niceTail_cons (c : Nat) (t : List Nat) (h : c ≠ 254) : NiceTail (c :: t) := by
   unfold NiceTail; simpa using h
 
 /-- a C40 / Text / X12 run extends the invariant -/
-theorem tend_MI (list : List Sym) (body : List Nat) (p0 : Nat) (c0 : List Nat) (latch : Nat) (hl : latch ≠ 254)
-    (hl2 : latch ≠ 232 ∧ latch ≠ 236 ∧ latch ≠ 237) (hc0 : HeadOK c0)
-    (s' : St) (hsync : Sync body c0 p0) (h : TEnd list body p0 c0 latch s') : MI list body s' := by
+theorem tend_MI (pre out0 : List Nat) (list : List Sym) (body : List Nat) (p0 : Nat) (c0 : List Nat) (latch : Nat) (hl : latch ≠ 254)
+    (hl2 : latch ≠ 232 ∧ latch ≠ 236 ∧ latch ≠ 237) (hc0 : HeadOK (c0.drop pre.length))
+    (s' : St) (hsync : Sync pre out0 body c0 p0) (h : TEnd list body p0 c0 latch s') : MI pre out0 list body s' := by
   obtain ⟨X, p, un, hsd, hp0, hp, hcw, hpos, hin, hli, hctl, hex⟩ := h.out
-  refine ⟨hin, hli, by rw [hpos]; exact hp, by rw [hcw, List.append_assoc]; exact headOK_append hc0 (headOK_cons latch _ hl2), ?_⟩
+  obtain ⟨hpl, hpt, hsync⟩ := hsync
+  have hcw' : s'.cw = c0 ++ (latch :: X ++ (if un then [254] else [])) := by rw [hcw]; simp
+  have hpl' : pre.length ≤ s'.cw.length := by rw [hcw']; simp; omega
+  have hpt' : s'.cw.take pre.length = pre := by rw [hcw', take_append_pre pre c0 _ hpl]; exact hpt
+  refine ⟨hin, hli, by rw [hpos]; exact hp,
+    by rw [hcw', drop_append_pre pre c0 _ hpl]; exact headOK_append hc0 (headOK_cons latch _ hl2), ?_⟩
   have hstep : ∀ tail, TripleTail un tail →
-      decRun .ascii { rest := s'.cw ++ tail, eaten := 0, out := [], ecis := [] } =
-      decRun .ascii { rest := tail, eaten := s'.cw.length, out := body.take s'.pos, ecis := [] } := by
+      decRun .ascii { rest := s'.cw.drop pre.length ++ tail, eaten := pre.length, out := out0, ecis := [] } =
+      decRun .ascii { rest := tail, eaten := s'.cw.length, out := out0 ++ body.take s'.pos, ecis := [] } := by
     intro tail ht
-    rw [hcw]
+    rw [hcw', drop_append_pre pre c0 _ hpl]
     have h1 := hsync ([latch] ++ X ++ (if un then [254] else []) ++ tail) (by simpa using niceTail_cons latch _ hl)
     simp only [List.append_assoc, List.singleton_append, List.cons_append, List.nil_append] at h1 ⊢
     rw [h1]
-    have h2 := hsd un tail c0.length (body.take p0) ht
+    have h2 := hsd un tail c0.length (out0 ++ body.take p0) ht
     simp only [List.append_assoc, List.singleton_append, List.cons_append, List.nil_append] at h2
     rw [h2, take_seg body p0 p hp0, hpos]
     congr 2
@@ -283,14 +290,14 @@ theorem tend_MI (list : List Sym) (body : List Nat) (p0 : Nat) (c0 : List Nat) (
     cases un <;> simp <;> omega
   cases un with
   | true =>
-    have hs : Sync body s'.cw s'.pos := fun tail ht => hstep tail ⟨ht, by simp⟩
+    have hs : Sync pre out0 body s'.cw s'.pos := ⟨hpl', hpt', fun tail ht => hstep tail ⟨ht, by simp⟩⟩
     rcases hctl with ⟨a1, a2, a3⟩ | ⟨_, a2, a3, a4⟩ | ⟨_, a2⟩
     · exact .normal hs (Or.inl ⟨a1, a3⟩) (by rw [a2]; intro e he; simp at he; subst he; simp)
         (fun hne => absurd a3 hne)
     · exact .normal hs a3 a4 (fun _ => a2)
     · cases a2
   | false =>
-    have hs : SyncEnd body s'.cw s'.pos := fun tail hlen ht => hstep tail ⟨ht, fun _ => hlen⟩
+    have hs : SyncEnd pre out0 body s'.cw s'.pos := ⟨hpl', hpt', fun tail hlen ht => hstep tail ⟨ht, fun _ => hlen⟩⟩
     obtain ⟨hone, hfit⟩ := hex rfl
     rw [← hpos] at hone hfit
     by_cases hmore : s'.hasMore = true
@@ -302,35 +309,41 @@ theorem tend_MI (list : List Sym) (body : List Nat) (p0 : Nat) (c0 : List Nat) (
         rw [hpos, hin, a1] at this
         omega
     · have hmf : s'.hasMore = false := by simpa using hmore
-      have hpl : s'.pos = body.length := by
+      have hposl : s'.pos = body.length := by
         have := of_decide_eq_false hmf
         rw [hin] at this
         rw [hpos] at this ⊢
         omega
-      have hnil : body.drop s'.pos = [] := by rw [hpl]; exact List.drop_eq_nil_of_le (Nat.le_refl _)
+      have hnil : body.drop s'.pos = [] := by rw [hposl]; exact List.drop_eq_nil_of_le (Nat.le_refl _)
       rw [hnil] at hfit
       simp only [asciiSize, Nat.add_zero] at hfit
-      refine .done hmf ⟨s'.cw.length, ?_⟩ hfit
-      have := hs [] (by simp) (by simp [NiceTail])
+      refine .done hmf hpt' ⟨s'.cw.length, ?_⟩ hfit
+      have := hs.2.2 [] (by simp) (by simp [NiceTail])
       simp only [List.append_nil] at this
-      rw [this, decRun_nil _ _ rfl, hpl, List.take_length]
+      rw [this, decRun_nil _ _ rfl, hposl, List.take_length]
 
 /-- a Base 256 run extends the invariant -/
-theorem bend_MI (list : List Sym) (body : List Nat) (hb : ByteList body) (p0 : Nat) (c0 : List Nat) (hc0 : HeadOK c0)
-    (s' : St) (hsync : Sync body c0 p0) (h : BEnd list body p0 c0 s') : MI list body s' := by
+theorem bend_MI (pre out0 : List Nat) (list : List Sym) (body : List Nat) (hb : ByteList body) (p0 : Nat) (c0 : List Nat)
+    (hc0 : HeadOK (c0.drop pre.length))
+    (s' : St) (hsync : Sync pre out0 body c0 p0) (h : BEnd list body p0 c0 s') : MI pre out0 list body s' := by
   obtain ⟨p, toEnd, hp0, hp, hcw, hpos, hin, hli, hte, htf, hctl⟩ := h.out
+  obtain ⟨hpl, hpt, hsync⟩ := hsync
+  have hcw' : s'.cw = c0 ++ ([231] ++ randFrom (c0.length + 2) (b256Hdr (seg body p0 p) toEnd ++ seg body p0 p)) := by
+    rw [hcw]; simp
+  have hpl' : pre.length ≤ s'.cw.length := by rw [hcw']; simp; omega
+  have hpt' : s'.cw.take pre.length = pre := by rw [hcw', take_append_pre pre c0 _ hpl]; exact hpt
   refine ⟨hin, hli, by rw [hpos]; exact hp,
-    by rw [hcw, List.append_assoc]; exact headOK_append hc0 (headOK_cons 231 _ (by omega)), ?_⟩
+    by rw [hcw', drop_append_pre pre c0 _ hpl]; exact headOK_append hc0 (headOK_cons 231 _ (by omega)), ?_⟩
   have hstep : ∀ tail, NiceTail tail → B256OK (seg body p0 p) toEnd tail →
-      decRun .ascii { rest := s'.cw ++ tail, eaten := 0, out := [], ecis := [] } =
-      decRun .ascii { rest := tail, eaten := s'.cw.length, out := body.take s'.pos, ecis := [] } := by
+      decRun .ascii { rest := s'.cw.drop pre.length ++ tail, eaten := pre.length, out := out0, ecis := [] } =
+      decRun .ascii { rest := tail, eaten := s'.cw.length, out := out0 ++ body.take s'.pos, ecis := [] } := by
     intro tail _ hok
-    rw [hcw]
+    rw [hcw', drop_append_pre pre c0 _ hpl]
     have h1 := hsync ([231] ++ randFrom (c0.length + 2) (b256Hdr (seg body p0 p) toEnd ++ seg body p0 p) ++ tail)
       (by simpa using niceTail_cons 231 _ (by omega))
     simp only [List.append_assoc] at h1 ⊢
     rw [h1]
-    have h2 := seg_b256 (seg body p0 p) tail toEnd c0.length (body.take p0) [] hok
+    have h2 := seg_b256 (seg body p0 p) tail toEnd c0.length (out0 ++ body.take p0) [] hok
     simp only [List.append_assoc] at h2
     rw [h2, take_seg body p0 p (by omega), hpos]
     congr 2
@@ -338,22 +351,22 @@ theorem bend_MI (list : List Sym) (body : List Nat) (hb : ByteList body) (p0 : N
     omega
   cases toEnd with
   | false =>
-    have hs : Sync body s'.cw s'.pos := fun tail ht =>
+    have hs : Sync pre out0 body s'.cw s'.pos := ⟨hpl', hpt', fun tail ht =>
       hstep tail ht ⟨seg_bytes body hb p0 p, by
         simp only [Bool.false_eq_true, ↓reduceIte]
         have := seg_length body p0 p (by omega) hp
-        exact ⟨by omega, htf rfl⟩⟩
+        exact ⟨by omega, htf rfl⟩⟩⟩
     rcases hctl with ⟨a1, a2, a3, _⟩ | ⟨_, a2, a3, a4⟩
     · exact .normal hs (Or.inl ⟨a1, a3⟩) (by rw [a2]; intro e he; simp at he; subst he; simp)
         (fun hne => absurd a3 hne)
     · exact .normal hs a3 a4 (fun _ => a2)
   | true =>
-    obtain ⟨hpl, hfit⟩ := hte rfl
-    have hmf : s'.hasMore = false := by simp [St.hasMore, hpos, hin, hpl]
-    refine .done hmf ⟨s'.cw.length, ?_⟩ hfit
+    obtain ⟨hposl, hfit⟩ := hte rfl
+    have hmf : s'.hasMore = false := by simp [St.hasMore, hpos, hin, hposl]
+    refine .done hmf hpt' ⟨s'.cw.length, ?_⟩ hfit
     have := hstep [] (by simp [NiceTail]) ⟨seg_bytes body hb p0 p, by simp⟩
     simp only [List.append_nil] at this
-    rw [this, decRun_nil _ _ rfl, hpos, hpl, List.take_length]
+    rw [this, decRun_nil _ _ rfl, hpos, hposl, List.take_length]
 
 /-! ### one call of a mode encoder preserves the invariant -/
 
@@ -369,14 +382,15 @@ theorem take_add_seg (body : List Nat) (p k : Nat) :
     · rw [List.take_of_length_le (by omega), List.take_of_length_le (by omega), List.drop_eq_nil_of_le (by omega)]
       simp
 
-theorem step_MI (list : List Sym) (body : List Nat) (hb : ByteList body) (s s' : St) (mi : MI list body s)
-    (hmore : s.hasMore = true) (h : encodeMode (latched s) = .ok s') : MI list body s' := by
+theorem step_MI (pre out0 : List Nat) (list : List Sym) (body : List Nat) (hb : ByteList body) (s s' : St)
+    (mi : MI pre out0 list body s)
+    (hmore : s.hasMore = true) (h : encodeMode (latched s) = .ok s') : MI pre out0 list body s' := by
   have hlt : s.pos < body.length := by
     have := of_decide_eq_true hmore
     rw [mi.inp] at this
     exact this
   cases mi.phase with
-  | done nomore _ _ => rw [hmore] at nomore; cases nomore
+  | done nomore _ _ _ => rw [hmore] at nomore; cases nomore
   | endgame _ sync mode plan nm one fit =>
     -- the single ASCII codeword that is still to come
     have hl : latched s = s := by simp [latched, nm]
@@ -389,10 +403,14 @@ theorem step_MI (list : List Sym) (body : List Nat) (hb : ByteList body) (s s' :
     have hrb : ByteList (body.drop s.pos) := hb.drop _
     have hseg := asciiSeg_asciiEnc _ hrb
     have haszlen : (asciiEnc (body.drop s.pos)).length = asciiSize (body.drop s.pos) := asciiEnc_length _ _ (Nat.le_refl _)
-    refine ⟨mi.inp, mi.lst, by simp [mi.inp], by simp only [hrest]; exact headOK_append mi.hd (headOK_asciiSeg hseg),
-      .done (by simp [St.hasMore]) ⟨s.cw.length + (asciiEnc (body.drop s.pos)).length, ?_⟩
+    obtain ⟨spl, spt, sync⟩ := sync
+    refine ⟨mi.inp, mi.lst, by simp [mi.inp],
+      by simp only [hrest]; rw [drop_append_pre pre s.cw _ spl]; exact headOK_append mi.hd (headOK_asciiSeg hseg),
+      .done (by simp [St.hasMore]) (by simp only []; rw [take_append_pre pre s.cw _ spl]; exact spt)
+        ⟨s.cw.length + (asciiEnc (body.drop s.pos)).length, ?_⟩
       (by simpa [hrest, haszlen] using fit)⟩
     simp only [hrest]
+    rw [drop_append_pre pre s.cw _ spl]
     have htail : NiceTail (asciiEnc (body.drop s.pos)) := by
       unfold NiceTail
       cases hx : asciiEnc (body.drop s.pos) with
@@ -401,9 +419,9 @@ theorem step_MI (list : List Sym) (body : List Nat) (hb : ByteList body) (s s' :
         simp only [List.head?_cons, ne_eq, Option.some.injEq]
         exact (hseg.1 x (by rw [hx]; simp)).1
     rw [sync _ (by rw [haszlen]; exact one) htail]
-    have h2 := decRun_asciiSeg hseg [] s.cw.length (body.take s.pos)
+    have h2 := decRun_asciiSeg hseg [] s.cw.length (out0 ++ body.take s.pos)
     simp only [List.append_nil] at h2
-    rw [h2, decRun_nil _ _ rfl, List.take_append_drop]
+    rw [h2, decRun_nil _ _ rfl, List.append_assoc, List.take_append_drop]
   | normal sync pend plan more =>
     cases hnm : s.newMode with
     | none =>
@@ -421,14 +439,15 @@ theorem step_MI (list : List Sym) (body : List Nat) (hb : ByteList body) (s s' :
         have := asciiLoop_pos_le _ s s' h (by rw [mi.inp]; exact mi.le)
         rw [mi.inp] at this
         exact this
-      refine ⟨hin', c4.2.trans mi.lst, hle', by rw [c1]; exact headOK_append mi.hd (headOK_asciiSeg c2), ?_⟩
+      refine ⟨hin', c4.2.trans mi.lst, hle',
+        by rw [c1, drop_append_pre pre s.cw _ sync.1]; exact headOK_append mi.hd (headOK_asciiSeg c2), ?_⟩
       have hchunk : body.take s'.pos = body.take s.pos ++ (s.input.drop s.pos).take (s'.pos - s.pos) := by
         rw [mi.inp]
         have : s'.pos = s.pos + (s'.pos - s.pos) := by omega
         conv => lhs; rw [this, List.take_add]
       have hlenchunk : ((s.input.drop s.pos).take (s'.pos - s.pos)).length = s'.pos - s.pos := by
         rw [mi.inp, List.length_take, List.length_drop]; omega
-      have hs : Sync body s'.cw s'.pos := by
+      have hs : Sync pre out0 body s'.cw s'.pos := by
         have := sync_ascii sync c2 (by rw [hlenchunk]; rw [show s.pos + (s'.pos - s.pos) = s'.pos by omega]; exact hchunk)
         rw [hlenchunk, show s.pos + (s'.pos - s.pos) = s'.pos by omega, ← c1] at this
         exact this
@@ -479,7 +498,7 @@ theorem step_MI (list : List Sym) (body : List Nat) (hb : ByteList body) (s s' :
             by simp [Wb, hLpos, seg_self], by simp, by simp [Wb, hLpos, seg_self, packTriples, latchOf, hLcw], by omega⟩
         have hend := c40Loop_gen false list body hb s.pos s.cw (body.length - s.pos) (sL.charsLeft + 2) sL [] 0 0 s'
           (by rw [hLpos]) (by omega) inv0 hLplan h
-        exact tend_MI list body s.pos s.cw (latchOf false) (by simp [latchOf]) (by simp [latchOf]) mi.hd s' sync (c40_to_TEnd false list body s.pos s.cw s' hend)
+        exact tend_MI pre out0 list body s.pos s.cw (latchOf false) (by simp [latchOf]) (by simp [latchOf]) mi.hd s' sync (c40_to_TEnd false list body s.pos s.cw s' hend)
       | text =>
         rw [hm] at hlat hLmode
         simp only [EMode.latch, Option.some.injEq] at hlat
@@ -490,14 +509,14 @@ theorem step_MI (list : List Sym) (body : List Nat) (hb : ByteList body) (s s' :
             by simp [Wb, hLpos, seg_self], by simp, by simp [Wb, hLpos, seg_self, packTriples, latchOf, hLcw], by omega⟩
         have hend := c40Loop_gen true list body hb s.pos s.cw (body.length - s.pos) (sL.charsLeft + 2) sL [] 0 0 s'
           (by rw [hLpos]) (by omega) inv0 hLplan h
-        exact tend_MI list body s.pos s.cw (latchOf true) (by simp [latchOf]) (by simp [latchOf]) mi.hd s' sync (c40_to_TEnd true list body s.pos s.cw s' hend)
+        exact tend_MI pre out0 list body s.pos s.cw (latchOf true) (by simp [latchOf]) (by simp [latchOf]) mi.hd s' sync (c40_to_TEnd true list body s.pos s.cw s' hend)
       | x12 =>
         rw [hm] at hlat hLmode
         simp only [EMode.latch, Option.some.injEq] at hlat
         subst hlat
         simp only [encodeMode, hLmode] at h
         have hend := x12Encode_gen list body s.pos s.cw sL s' hLin hLli hLpos mi.le hLnm hLcw hLplan h
-        exact tend_MI list body s.pos s.cw 238 (by omega) (by omega) mi.hd s' sync hend
+        exact tend_MI pre out0 list body s.pos s.cw 238 (by omega) (by omega) mi.hd s' sync hend
       | base256 =>
         rw [hm] at hlat hLmode
         simp only [EMode.latch, Option.some.injEq] at hlat
@@ -511,13 +530,13 @@ theorem step_MI (list : List Sym) (body : List Nat) (hb : ByteList body) (s s' :
         have hend := b256Loop_gen list body hb s.pos s.cw (body.length - s.pos) (sL.charsLeft + 2) (sL.push 0) s'
           (by simp [St.push, hLpos]) (by omega) inv0 (by simpa [St.push] using hLplan)
           (Or.inl (by simp only [St.hasMore, St.push, hLin, hLpos]; simpa [St.hasMore, mi.inp] using hmore)) h
-        exact bend_MI list body hb s.pos s.cw mi.hd s' sync hend
+        exact bend_MI pre out0 list body hb s.pos s.cw mi.hd s' sync hend
 
 /-! ### the main loop and the whole run -/
 
-theorem mainLoop_MI (list : List Sym) (body : List Nat) (hb : ByteList body) :
-    ∀ (f : Nat) (s : St) (k : Nat) (sE : St), Enc.mainLoop f s k = .ok sE → MI list body s →
-      MI list body sE ∧ sE.hasMore = false := by
+theorem mainLoop_MI (pre out0 : List Nat) (list : List Sym) (body : List Nat) (hb : ByteList body) :
+    ∀ (f : Nat) (s : St) (k : Nat) (sE : St), Enc.mainLoop f s k = .ok sE → MI pre out0 list body s →
+      MI pre out0 list body sE ∧ sE.hasMore = false := by
   intro f
   induction f with
   | zero => intro s k sE h; cases h
@@ -525,31 +544,64 @@ theorem mainLoop_MI (list : List Sym) (body : List Nat) (hb : ByteList body) :
     intro s k sE h mi
     by_cases hmore : s.hasMore = true
     · obtain ⟨s', k', he, hm⟩ := mainLoop_step f s sE k h hmore
-      exact ih s' k' sE hm (step_MI list body hb s s' mi hmore he)
+      exact ih s' k' sE hm (step_MI pre out0 list body hb s s' mi hmore he)
     · have hmf : s.hasMore = false := by simpa using hmore
       rw [mainLoop_end _ _ _ hmf] at h
       simp only [Except.ok.injEq] at h
       subst h
       exact ⟨mi, hmf⟩
 
-/-- **Data-level round trip for mixed plans** over ASCII, C40, Text, X12 and Base 256 in which no
-latch to a non-ASCII mode is planned for the last four characters. -/
-theorem general_roundtrip (list : List Sym) (body cw : List Nat) (plan : List (Nat × EMode)) (sym : Sym)
-    (hb : ByteList body) (hplan : PlanOK plan) (h : run list [] body plan = .ok (cw, sym)) :
-    decodeData cw = .ok body := by
-  obtain ⟨sE, hmain, hsym, hpad⟩ := run_unfold list body plan cw sym h
-  have mi0 : MI list body { input := body, pos := 0, mode := .ascii, plan := plan, newMode := none, cw := [], list := list } :=
+theorem run_unfoldP (list : List Sym) (pre body cw : List Nat) (plan : List (Nat × EMode)) (sym : Sym)
+    (h : run list pre body plan = .ok (cw, sym)) :
+    ∃ sE, Enc.mainLoop (2 * body.length + 8)
+        { input := body, pos := 0, mode := .ascii, plan := plan, newMode := none, cw := pre, list := list } 0 = .ok sE ∧
+      firstBigEnough list sE.cw.length = some sym ∧
+      addPadding sE.cw (sE.mode == .ascii) (dataCw sym) = some cw := by
+  unfold run at h
+  split at h
+  · cases h
+  split at h
+  · cases h
+  simp only [] at h
+  cases hm : Enc.mainLoop (2 * body.length + 8)
+      { input := body, pos := 0, mode := .ascii, plan := plan, newMode := none, cw := pre, list := list } 0 with
+  | error e => rw [hm] at h; cases h
+  | ok sE =>
+    rw [hm] at h
+    simp only [] at h
+    cases hf : firstBigEnough list sE.cw.length with
+    | none => rw [hf] at h; cases h
+    | some sym' =>
+      rw [hf] at h
+      simp only [] at h
+      cases ha : addPadding sE.cw (sE.mode == .ascii) (dataCw sym') with
+      | none => rw [ha] at h; cases h
+      | some cw' =>
+        rw [ha] at h
+        simp only [Except.ok.injEq, Prod.mk.injEq] at h
+        obtain ⟨h1, h2⟩ := h
+        subst h1 h2
+        exact ⟨sE, rfl, hf, ha⟩
+
+/-- the decoder's main loop, started behind the prefix codewords, returns the message -/
+theorem run_decRun (pre out0 : List Nat) (list : List Sym) (body cw : List Nat) (plan : List (Nat × EMode)) (sym : Sym)
+    (hb : ByteList body) (hplan : PlanOK plan) (h : run list pre body plan = .ok (cw, sym)) :
+    cw.take pre.length = pre ∧ HeadOK (cw.drop pre.length) ∧
+    ∃ e, decRun .ascii { rest := cw.drop pre.length, eaten := pre.length, out := out0, ecis := [] } =
+      .ok { rest := [], eaten := e, out := out0 ++ body, ecis := [] } := by
+  obtain ⟨sE, hmain, hsym, hpad⟩ := run_unfoldP list pre body cw plan sym h
+  have mi0 : MI pre out0 list body { input := body, pos := 0, mode := .ascii, plan := plan, newMode := none, cw := pre, list := list } :=
     ⟨rfl, rfl, Nat.zero_le _, by intro c hc; simp at hc,
-      .normal (sync_init body) (Or.inl ⟨rfl, rfl⟩) hplan (fun hne => absurd rfl hne)⟩
-  obtain ⟨miE, hmf⟩ := mainLoop_MI list body hb _ _ 0 sE hmain mi0
-  have hpl : sE.pos = body.length := by
+      .normal (sync_init pre out0 body) (Or.inl ⟨rfl, rfl⟩) hplan (fun hne => absurd rfl hne)⟩
+  obtain ⟨miE, hmf⟩ := mainLoop_MI pre out0 list body hb _ _ 0 sE hmain mi0
+  have hposl : sE.pos = body.length := by
     have := of_decide_eq_false hmf
     rw [miE.inp] at this
     have := miE.le
     omega
   cases miE.phase with
   | endgame more _ _ _ _ _ _ => rw [hmf] at more; cases more
-  | done _ dec fit =>
+  | done _ pfx dec fit =>
     obtain ⟨S, f1, f2⟩ := fit
     rw [f1] at hsym
     simp only [Option.some.injEq] at hsym
@@ -557,9 +609,9 @@ theorem general_roundtrip (list : List Sym) (body cw : List Nat) (plan : List (N
     rw [addPadding_exact _ _ _ f2.symm] at hpad
     simp only [Option.some.injEq] at hpad
     subst hpad
-    obtain ⟨e, hdec⟩ := dec
-    exact decodeData_of_decRun _ body e miE.hd hdec
+    exact ⟨pfx, miE.hd, dec⟩
   | normal sync pend _ more =>
+    obtain ⟨spl, spt, sync⟩ := sync
     have hnm : sE.newMode = none := by
       cases hn : sE.newMode with
       | none => rfl
@@ -573,15 +625,73 @@ theorem general_roundtrip (list : List Sym) (body cw : List Nat) (plan : List (N
     rw [hmode, hbeq, addPadding_ascii_pads _ _ hcap] at hpad
     simp only [Option.some.injEq] at hpad
     subst hpad
-    obtain ⟨ef, hpads⟩ := DM.Props.C04.decRun_pads sE.cw.length (dataCw sym - sE.cw.length) body []
+    obtain ⟨ef, hpads⟩ := DM.Props.C04.decRun_pads sE.cw.length (dataCw sym - sE.cw.length) (out0 ++ body) []
     have hnice : NiceTail (DM.Props.C04.padsOf sE.cw.length (dataCw sym - sE.cw.length)) := by
       unfold NiceTail DM.Props.C04.padsOf
       split <;> simp
-    apply decodeData_of_decRun _ body ef
-    · apply headOK_append miE.hd
+    refine ⟨by rw [take_append_pre pre sE.cw _ spl]; exact spt, ?_, ef, ?_⟩
+    · rw [drop_append_pre pre sE.cw _ spl]
+      apply headOK_append miE.hd
       unfold HeadOK DM.Props.C04.padsOf
       split <;> simp
-    · rw [sync _ hnice, hpl, List.take_length]
+    · rw [drop_append_pre pre sE.cw _ spl, sync _ hnice, hposl, List.take_length]
       exact hpads
+
+/-- **Data-level round trip for mixed plans** over ASCII, C40, Text, X12 and Base 256 in which no
+latch to a non-ASCII mode is planned for the last four characters. -/
+theorem general_roundtrip (list : List Sym) (body cw : List Nat) (plan : List (Nat × EMode)) (sym : Sym)
+    (hb : ByteList body) (hplan : PlanOK plan) (h : run list [] body plan = .ok (cw, sym)) :
+    decodeData cw = .ok body := by
+  obtain ⟨_, hhd, e, hdec⟩ := run_decRun [] [] list body cw plan sym hb hplan h
+  simp only [List.length_nil, List.drop_zero, List.nil_append] at hhd hdec
+  exact decodeData_of_decRun _ body e hhd hdec
+
+/-- the same behind an FNC1 codeword in first position (GS1): the decoder returns the message -/
+theorem fnc1_roundtrip (list : List Sym) (body cw : List Nat) (plan : List (Nat × EMode)) (sym : Sym)
+    (hb : ByteList body) (hplan : PlanOK plan) (h : run list [232] body plan = .ok (cw, sym)) :
+    decodeData cw = .ok body := by
+  obtain ⟨hpfx, hhd, e, hdec⟩ := run_decRun [232] [] list body cw plan sym hb hplan h
+  simp only [List.length_singleton, List.nil_append] at hpfx hhd hdec
+  have hcw : cw = 232 :: cw.drop 1 := by
+    conv => lhs; rw [← List.take_append_drop 1 cw, hpfx]
+    rfl
+  unfold decodeData
+  rw [hcw, decodeParts_other _ true (fun t => ⟨by simp, by simp⟩), partsBody_232]
+  simp only [Bool.not_true, Bool.false_and, Bool.false_eq_true, ↓reduceIte, Nat.zero_add]
+  unfold decRun at hdec
+  simp only [] at hdec
+  rw [hdec]
+  simp [partsFinish]
+
+/-- the same behind a Macro 05 / Macro 06 codeword: the decoder re-creates header and trailer -/
+theorem macro_roundtrip (six : Bool) (list : List Sym) (body cw : List Nat) (plan : List (Nat × EMode)) (sym : Sym)
+    (hb : ByteList body) (hplan : PlanOK plan) (h : run list [if six then 237 else 236] body plan = .ok (cw, sym)) :
+    decodeData cw = .ok ((if six then macroHead06 else macroHead05) ++ body ++ macroTrail) := by
+  obtain ⟨hpfx, hhd, e, hdec⟩ := run_decRun [if six then 237 else 236] (if six then macroHead06 else macroHead05)
+    list body cw plan sym hb hplan h
+  simp only [List.length_singleton] at hpfx hhd hdec
+  have hcw : cw = (if six then 237 else 236) :: cw.drop 1 := by
+    conv => lhs; rw [← List.take_append_drop 1 cw, hpfx]
+    rfl
+  have hno : ∀ t, cw.drop 1 ≠ 232 :: t := fun t ht => (hhd 232 (by rw [ht]; simp)).1 rfl
+  unfold decodeData
+  rw [hcw]
+  cases six with
+  | false =>
+    simp only [Bool.false_eq_true, ↓reduceIte] at hdec ⊢
+    rw [decodeParts_236, partsBody_no232 true macroHead05 _ 1 true hno]
+    simp only [Bool.not_true, Bool.false_and, Bool.false_eq_true, ↓reduceIte]
+    unfold decRun at hdec
+    simp only [List.length_singleton] at hdec
+    rw [hdec]
+    simp [partsFinish]
+  | true =>
+    simp only [↓reduceIte] at hdec ⊢
+    rw [decodeParts_237, partsBody_no232 true macroHead06 _ 1 true hno]
+    simp only [Bool.not_true, Bool.false_and, Bool.false_eq_true, ↓reduceIte]
+    unfold decRun at hdec
+    simp only [List.length_singleton] at hdec
+    rw [hdec]
+    simp [partsFinish]
 
 end DM.Lemmas.MainRT
